@@ -134,4 +134,26 @@ the cumulative point is held (the "fills a gap below the highest TSN" exception 
 def Room (r : Receiver.St) : Bool :=
   accept_hasCredit (a_getMyReceiverWindowCredit := Receiver.credit r) || decide (r.pq.size ≠ 0)
 
+/-- the round up to and including its FIRST delivery -/
+def firstOps (s : St) : List Op := acceptAll s.rcv ++ sendOps s.snd ++ [.deliver [(s.wire.length, false)]]
+
+/-- the receiver does not answer the first chunk delivered in this round with an ABORT (reassembly queue refusing the
+chunk: entry cap, zero-length data) or a panic -/
+def HeadOk (P : Params) (s : St) : Bool :=
+  !(run P s (firstOps s)).rcv.willSendAbort && !(run P s (firstOps s)).rcv.panicked
+
+/-- the sender's cumulative ack point is not ahead of the receiver's cumulative point, and when they coincide the lowest
+outstanding chunk is not gap-acked (what a SOUND SACK history guarantees: `soundSack` / `Honest`) -/
+def InSync (s : St) : Bool :=
+  !sna32GT s.snd.cumAck s.rcv.pq.cum &&
+  (s.snd.cumAck != s.rcv.pq.cum || match s.snd.inflight.head? with | some c => !c.acked | none => true)
+
+/-- the receiver-side premises of one healed round -/
+def RoundOk (P : Params) (s : St) : Bool := s.rcv.state == 3#32 && Room s.rcv && InSync s && HeadOk P s
+
+/-- `RoundOk` at the start of each of the next `n` rounds that start with something outstanding -/
+def RoundOkN (P : Params) : Nat → St → Bool
+  | 0, _ => true
+  | n+1, s => (outstanding s == 0 || RoundOk P s) && RoundOkN P n (healed P s)
+
 end NetSys
